@@ -1,14 +1,14 @@
 """C05 Built-in mobilizers realize their documented parameterisation (DESIGN 5 C05).
 Model: coq/C05/C05_Model.v, the mobilizer catalogue written from the public headers MobilizedBody_*.h (generic in NumOps);
 the Euler/quaternion N blocks are the Rotation.h helpers regenerated from source (translator group rot).
-Theorems: coq/Props/Properties_C05.v (rotation, documented forms, X_FM jets = meaning of the speeds, reversed = inverse,
+Theorems: coq/Props/Properties_C05*.v (rotation, documented forms, X_FM jets = meaning of the speeds, reversed = inverse,
 fit round trips).  Tie: correspondence on single-mobilizer systems (harness/C05_probe.cpp vs the extracted catalogue):
 getMobilizerTransform / getMobilizerVelocity / getH_FMCol for all 17 types x forward/Reverse x quaternion/Euler, and
 setQToFitTransform / setUToFitVelocity round trips on the implementation."""
 import os, collections
 from vlib import *
 
-PROPS = ['Props/Properties_C05.v']
+PROPS = ['Props/Properties_C05.v', 'Props/Properties_C05_jets.v', 'Props/Properties_C05_wave2.v', 'Props/Properties_C05_fit.v']   # compiled in parallel
 TYPES = ["Pin", "Slider", "Universal", "Cylinder", "BendStretch", "Planar", "Gimbal", "Bushing", "Ball", "Free",
          "Translation", "Screw", "Ellipsoid", "LineOrientation", "FreeLine", "SphericalCoords", "Weld"]
 EXTRACT = '''From Coq Require Import Extraction ExtrOcamlBasic.
